@@ -825,5 +825,591 @@ theorem parseBlock_header (pre post : List (List Char)) (y1 y2 y3 y4 m1 m2 d1 d2
     simp only [versionFromLines, versionOfLine_date y1 y2 y3 y4 m1 m2 d1 d2 hy1 hy2 hy3 hy4 hm1 hm2 hd1 hd2]
   rw [hv]; rfl
 
+/-! ### `split("\n\n")`, whole obo files -/
+
+/-- no blank line inside, no line break at the end: what a block between blank lines looks like -/
+def BlockOk : List Char → Prop
+  | [] => True
+  | [c] => c ≠ '\n'
+  | c :: d :: r => ¬ (c = '\n' ∧ d = '\n') ∧ BlockOk (d :: r)
+
+theorem splitOnStrGo_cons_false (pat : List Char) (c : Char) (cs : List Char)
+    (h : startsWith pat (c :: cs) = false) :
+    splitOnStrGo pat 0 (c :: cs) = consHead c (splitOnStrGo pat 0 cs) := by
+  rw [splitOnStrGo]; simp [h]
+
+theorem splitOnStrGo_block (b rest : List Char) (h : BlockOk b) :
+    splitOnStrGo blankLine 0 (b ++ '\n' :: '\n' :: rest) = b :: splitOnStrGo blankLine 0 rest := by
+  induction b with
+  | nil => simp [splitOnStrGo, blankLine, startsWith]
+  | cons c r ih =>
+    cases r with
+    | nil =>
+      have hc : ¬ ('\n' = c) := fun e => h e.symm
+      have := ih (by simp [BlockOk])
+      simp only [List.nil_append] at this
+      simp [splitOnStrGo, blankLine, startsWith, hc, consHead] at this ⊢
+    | cons d r' =>
+      obtain ⟨h1, h2⟩ := h
+      have hs : startsWith blankLine (c :: (d :: r' ++ '\n' :: '\n' :: rest)) = false := by
+        by_cases hc : '\n' = c
+        · have hd : ¬ ('\n' = d) := fun e => h1 ⟨hc.symm, e.symm⟩
+          simp [blankLine, startsWith, hd]
+        · simp [blankLine, startsWith, hc]
+      show splitOnStrGo blankLine 0 (c :: (d :: r' ++ '\n' :: '\n' :: rest)) = _
+      rw [splitOnStrGo_cons_false _ _ _ hs, ih h2]; rfl
+
+theorem splitOnStrGo_last (b : List Char) (h : BlockOk b) : splitOnStrGo blankLine 0 b = [b] := by
+  induction b with
+  | nil => rfl
+  | cons c r ih =>
+    cases r with
+    | nil => simp [splitOnStrGo, blankLine, startsWith, consHead]
+    | cons d r' =>
+      obtain ⟨h1, h2⟩ := h
+      have hs : startsWith blankLine (c :: d :: r') = false := by
+        by_cases hc : '\n' = c
+        · have hd : ¬ ('\n' = d) := fun e => h1 ⟨hc.symm, e.symm⟩
+          simp [blankLine, startsWith, hd]
+        · simp [blankLine, startsWith, hc]
+      rw [splitOnStrGo_cons_false _ _ _ hs, ih h2]; rfl
+
+/-- `split("\n\n")` returns exactly the blocks that were joined with a blank line -/
+theorem splitOnStr_joinStr (blocks : List (List Char)) (hne : blocks ≠ [])
+    (h : ∀ b ∈ blocks, BlockOk b) : splitOnStr blankLine (joinStr blankLine blocks) = blocks := by
+  unfold splitOnStr
+  induction blocks with
+  | nil => exact absurd rfl hne
+  | cons b r ih =>
+    cases r with
+    | nil => simpa [joinStr] using splitOnStrGo_last b (h b (by simp))
+    | cons g r' =>
+      show splitOnStrGo blankLine 0 (b ++ blankLine ++ joinStr blankLine (g :: r')) = _
+      have : b ++ blankLine ++ joinStr blankLine (g :: r') = b ++ '\n' :: '\n' :: joinStr blankLine (g :: r') := by
+        simp [blankLine]
+      rw [this, splitOnStrGo_block b _ (h b (by simp)), ih (by simp) (fun x hx => h x (by simp [hx]))]
+
+theorem BlockOk_line (f : List Char) (h : '\n' ∉ f) : BlockOk f := by
+  induction f with
+  | nil => trivial
+  | cons c r ih =>
+    have hc : c ≠ '\n' := fun e => h (by simp [e])
+    cases r with
+    | nil => exact hc
+    | cons d r' => exact ⟨fun e => hc e.1, ih (fun e => h (by simp [e]))⟩
+
+theorem BlockOk_append_line (f x : List Char) (hf : '\n' ∉ f) (hfne : f ≠ []) (hx : BlockOk x)
+    (hxh : ∀ r, x ≠ '\n' :: r) (hxne : x ≠ []) : BlockOk (f ++ '\n' :: x) := by
+  induction f with
+  | nil => exact absurd rfl hfne
+  | cons c r ih =>
+    have hc : c ≠ '\n' := fun e => hf (by simp [e])
+    cases r with
+    | nil =>
+      cases x with
+      | nil => exact absurd rfl hxne
+      | cons y ys =>
+        have hy : y ≠ '\n' := fun e => hxh ys (by rw [e])
+        exact ⟨fun e => hc e.1, fun e => hy e.2, hx⟩
+    | cons d r' =>
+      exact ⟨fun e => hc e.1, ih (fun e => hf (by simp [e])) (by simp)⟩
+
+/-- lines (non-empty, without `\n`) joined with `\n` form a block -/
+theorem BlockOk_joinWith (ls : List (List Char)) (hne : ls ≠ []) (h : ∀ l ∈ ls, '\n' ∉ l ∧ l ≠ []) :
+    BlockOk (joinWith '\n' ls) ∧ (∀ r, joinWith '\n' ls ≠ '\n' :: r) ∧ joinWith '\n' ls ≠ [] := by
+  induction ls with
+  | nil => exact absurd rfl hne
+  | cons f r ih =>
+    have hf := h f (by simp)
+    have hhead : ∀ t : List Char, ∀ r', f ++ t ≠ '\n' :: r' := by
+      intro t r' e
+      cases f with
+      | nil => exact hf.2 rfl
+      | cons c cs =>
+        have : c = '\n' := by simpa using (List.cons.inj e).1
+        exact hf.1 (by simp [this])
+    cases r with
+    | nil =>
+      refine ⟨by simpa [joinWith] using BlockOk_line f hf.1, ?_, by simpa [joinWith] using hf.2⟩
+      intro r' e; exact hhead [] r' (by simpa [joinWith] using e)
+    | cons g r' =>
+      obtain ⟨i1, i2, i3⟩ := ih (by simp) (fun x hx => h x (by simp [hx]))
+      rw [joinWith_cons_cons]
+      exact ⟨BlockOk_append_line f _ hf.1 hf.2 i1 i2 i3, fun r'' => hhead _ r'', by simp [hf.2]⟩
+
+theorem readBlocks_results (items : List (List Char × Block))
+    (h : ∀ p ∈ items, parseBlock p.1 = .ok p.2) (o : Obo) :
+    readBlocks (items.map (·.1)) o = .ok ((items.map (·.2)).foldl Obo.push o) := by
+  induction items generalizing o with
+  | nil => rfl
+  | cons p r ih =>
+    simp only [List.map_cons, readBlocks, h p (by simp), Res.bind, List.foldl_cons]
+    exact ih (fun x hx => h x (by simp [hx])) _
+
+theorem readObo_pairs (pairs : List (List Char × Block)) (hne : pairs ≠ [])
+    (h : ∀ p ∈ pairs, BlockOk p.1 ∧ parseBlock p.1 = .ok p.2) :
+    readObo (joinStr blankLine (pairs.map (·.1))) = .ok ((pairs.map (·.2)).foldl Obo.push {}) := by
+  unfold readObo
+  rw [splitOnStr_joinStr _ (by simpa using hne) (by
+    intro b hb
+    obtain ⟨p, hp, rfl⟩ := List.mem_map.1 hb
+    exact (h p hp).1)]
+  exact readBlocks_results pairs (fun p hp => (h p hp).2) {}
+
+theorem joinStr_snoc_nil (sep : List Char) (bs : List (List Char)) (hne : bs ≠ []) :
+    joinStr sep (bs ++ [[]]) = joinStr sep bs ++ sep := by
+  induction bs with
+  | nil => exact absurd rfl hne
+  | cons b r ih =>
+    cases r with
+    | nil => simp [joinStr]
+    | cons g r' =>
+      have := ih (by simp)
+      simp only [List.cons_append, joinStr] at this ⊢
+      rw [this]; simp
+
+/-- a block of an obo file after the header -/
+inductive Item where
+  | stanza (id : Nat) (name : List Char) (obs : Bool) (repl : Option Nat)
+      (parents : List (Nat × List Char)) (extras1 extras2 : List (List Char × List Char))
+  /-- any other stanza: first line `tag` (e.g. `[Typedef]`), then further lines -/
+  | other (tag : List Char) (ls : List (List Char))
+
+def Item.render : Item → List Char
+  | .stanza id name obs repl parents e1 e2 => renderStanza id name obs repl parents e1 e2
+  | .other tag ls => joinWith '\n' (tag :: ls)
+
+def Item.result : Item → Block
+  | .stanza id name obs repl parents _ _ =>
+    .term { id := id, name := name, obsolete := obs, replacement := repl } (parents.map (·.1))
+  | .other _ _ => .other
+
+def Item.Ok : Item → Prop
+  | .stanza id name _ repl parents e1 e2 =>
+    id < 4294967296 ∧ (∀ r, repl = some r → r < 4294967296) ∧ (∀ p ∈ parents, p.1 < 4294967296) ∧
+      StanzaOk name parents e1 e2
+  | .other tag ls =>
+    (∀ l ∈ tag :: ls, LineOk l) ∧ (∀ s, stripPrefix termPrefix (tag ++ s) = none) ∧
+      (∀ s, startsWith formatPrefix (tag ++ s) = false)
+
+/-- the term stanzas of a file, in file order -/
+def itemsTerms : List Item → List (Term × List Nat)
+  | [] => []
+  | .stanza id name obs repl parents _ _ :: r =>
+    ({ id := id, name := name, obsolete := obs, replacement := repl }, parents.map (·.1)) :: itemsTerms r
+  | .other _ _ :: r => itemsTerms r
+
+theorem foldl_push_items (items : List Item) (o : Obo) :
+    (items.map Item.result).foldl Obo.push o = { o with terms := o.terms ++ itemsTerms items } := by
+  induction items generalizing o with
+  | nil => simp [itemsTerms]
+  | cons i r ih =>
+    cases i with
+    | stanza id name obs repl parents e1 e2 =>
+      simp [Item.result, Obo.push, ih, itemsTerms]
+    | other tag ls => simp [Item.result, Obo.push, ih, itemsTerms]
+
+def tagTerm : List Char := ['[', 'T', 'e', 'r', 'm', ']']
+
+theorem renderStanza_eq (id : Nat) (name : List Char) (obs : Bool) (repl : Option Nat)
+    (parents : List (Nat × List Char)) (e1 e2 : List (List Char × List Char)) :
+    renderStanza id name obs repl parents e1 e2 =
+      joinWith '\n' (tagTerm :: stanzaLines id name obs repl parents e1 e2) := by
+  simp [renderStanza, stanzaLines, joinWith_cons_cons, tagTerm, termPrefix]
+
+theorem joinWith_cons_exists (c : Char) (f : List Char) (r : List (List Char)) :
+    ∃ s, joinWith c (f :: r) = f ++ s := by
+  cases r with
+  | nil => exact ⟨[], by simp [joinWith]⟩
+  | cons g r' => exact ⟨_, joinWith_cons_cons c f g r'⟩
+
+theorem Item.block_ok (i : Item) (h : i.Ok) : BlockOk i.render ∧ parseBlock i.render = .ok i.result := by
+  cases i with
+  | stanza id name obs repl parents e1 e2 =>
+    obtain ⟨h1, h2, h3, h4⟩ := h
+    refine ⟨?_, parseBlock_stanza id name obs repl parents e1 e2 h1 h2 h3 h4⟩
+    simp only [Item.render]
+    rw [renderStanza_eq]
+    refine (BlockOk_joinWith _ (by simp) ?_).1
+    intro l hl
+    rcases List.mem_cons.1 hl with rfl | hl
+    · exact ⟨by decide, by decide⟩
+    · have := stanzaLines_ok id name obs repl parents e1 e2 h4 l hl
+      exact ⟨this.1, this.2.2⟩
+  | other tag ls =>
+    obtain ⟨h1, h2, h3⟩ := h
+    refine ⟨(BlockOk_joinWith _ (by simp) (fun l hl => ⟨(h1 l hl).1, (h1 l hl).2.2⟩)).1, ?_⟩
+    obtain ⟨s, hs⟩ := joinWith_cons_exists '\n' tag ls
+    simp only [Item.render, Item.result, hs]
+    exact parseBlock_other _ (h2 s) (h3 s)
+
+/-- A whole rendered `hp.obo`: header block, then `[Term]` stanzas and other stanzas in any order,
+separated by blank lines, ending right after the last block or with one more blank line. The
+loader sees exactly the term stanzas (in file order) and the release version. -/
+theorem readObo_file (pre post : List (List Char)) (y1 y2 y3 y4 m1 m2 d1 d2 : Nat)
+    (hy1 : y1 < 10) (hy2 : y2 < 10) (hy3 : y3 < 10) (hy4 : y4 < 10) (hm1 : m1 < 10) (hm2 : m2 < 10)
+    (hd1 : d1 < 10) (hd2 : d2 < 10)
+    (hpre : ∀ l ∈ pre, stripPrefix versionPrefix l = none) (hok : ∀ l ∈ pre ++ post, LineOk l)
+    (items : List Item) (hitems : ∀ i ∈ items, i.Ok) (ending : List Char)
+    (hend : ending = [] ∨ ending = blankLine) :
+    readObo (joinStr blankLine
+        (joinWith '\n' (headerLines pre post y1 y2 y3 y4 m1 m2 d1 d2) :: items.map Item.render) ++ ending) =
+      .ok { terms := itemsTerms items,
+            version := (1000 * y1 + 100 * y2 + 10 * y3 + y4, 10 * m1 + m2, 10 * d1 + d2) } := by
+  have hhdr := parseBlock_header pre post y1 y2 y3 y4 m1 m2 d1 d2 hy1 hy2 hy3 hy4 hm1 hm2 hd1 hd2 hpre hok
+  have hhok : BlockOk (joinWith '\n' (headerLines pre post y1 y2 y3 y4 m1 m2 d1 d2)) := by
+    refine (BlockOk_joinWith _ (by simp [headerLines]) ?_).1
+    intro l hl
+    simp only [headerLines, List.cons_append, List.mem_cons, List.mem_append] at hl
+    rcases hl with rfl | hl | rfl | hl
+    · exact ⟨by decide, by decide⟩
+    · have := hok l (by simp [hl]); exact ⟨this.1, this.2.2⟩
+    · refine ⟨?_, by simp [versionLine, versionPrefix]⟩
+      have hd : ∀ k, ¬ ('\n' = TermId.digitChar k) := fun k e => digitVal_none_ne k '\n' nl_digitVal e.symm
+      simp [versionLine, versionPrefix, dateText, hd]
+    · have := hok l (by simp [hl]); exact ⟨this.1, this.2.2⟩
+  let v : Nat × Nat × Nat := (1000 * y1 + 100 * y2 + 10 * y3 + y4, 10 * m1 + m2, 10 * d1 + d2)
+  let base : List (List Char × Block) :=
+    (joinWith '\n' (headerLines pre post y1 y2 y3 y4 m1 m2 d1 d2), Block.header v) ::
+      items.map (fun i => (i.render, i.result))
+  have hbase : ∀ p ∈ base, BlockOk p.1 ∧ parseBlock p.1 = .ok p.2 := by
+    intro p hp
+    rcases List.mem_cons.1 hp with rfl | hp
+    · exact ⟨hhok, hhdr⟩
+    · obtain ⟨i, hi, rfl⟩ := List.mem_map.1 hp
+      exact i.block_ok (hitems i hi)
+  have hfst : base.map (·.1) =
+      joinWith '\n' (headerLines pre post y1 y2 y3 y4 m1 m2 d1 d2) :: items.map Item.render := by
+    simp [base, List.map_map, Function.comp_def]
+  have hsnd : base.map (·.2) = Block.header v :: items.map Item.result := by
+    simp [base, List.map_map, Function.comp_def]
+  rcases hend with rfl | rfl
+  · have := readObo_pairs base (by simp [base]) hbase
+    rw [hfst, hsnd] at this
+    simp only [List.append_nil]
+    rw [this, List.foldl_cons, foldl_push_items]
+    simp [Obo.push, v]
+  · have := readObo_pairs (base ++ [([], Block.other)]) (by simp) (by
+      intro p hp
+      rcases List.mem_append.1 hp with hp | hp
+      · exact hbase p hp
+      · simp at hp; subst hp
+        exact ⟨trivial, parseBlock_other _ (by decide) (by decide)⟩)
+    rw [List.map_append, List.map_append, hfst, hsnd] at this
+    simp only [List.map_cons, List.map_nil] at this
+    rw [joinStr_snoc_nil _ _ (by simp)] at this
+    rw [this, List.foldl_append, List.foldl_cons, List.foldl_cons, foldl_push_items]
+    simp [Obo.push, v]
+
+/-! ### whole row files -/
+
+theorem linesOf_snoc_nil (ls : List (List Char)) (h : ∀ l ∈ ls, '\r' ∉ l) : linesOf (ls ++ [[]]) = ls := by
+  induction ls with
+  | nil => rfl
+  | cons l r ih =>
+    have hr := ih (fun x hx => h x (by simp [hx]))
+    cases r with
+    | nil => simp [linesOf, stripCr_noCr l (h l (by simp))]
+    | cons m r' =>
+      simp only [List.cons_append, linesOf] at hr ⊢
+      rw [stripCr_noCr l (h l (by simp)), hr]
+
+theorem joinWith_snoc_nil (c : Char) (ls : List (List Char)) (hne : ls ≠ []) :
+    joinWith c (ls ++ [[]]) = joinWith c ls ++ [c] := by
+  induction ls with
+  | nil => exact absurd rfl hne
+  | cons l r ih =>
+    cases r with
+    | nil => simp [joinWith]
+    | cons m r' =>
+      have := ih (by simp)
+      simp only [List.cons_append, joinWith] at this ⊢
+      rw [this]; simp
+
+/-- how a row file may end: after the last row, or with one line feed after it -/
+def RowsEnd {α : Type} (rows : List α) (ending : List Char) : Prop :=
+  ending = [] ∨ (ending = ['\n'] ∧ rows ≠ [])
+
+/-- `lines()` of rows joined by `\n` returns the rows -/
+theorem lines_rows (rows : List (List Char)) (ending : List Char) (h : ∀ l ∈ rows, LineOk l)
+    (hend : RowsEnd rows ending) : lines (joinWith '\n' rows ++ ending) = rows := by
+  rcases hend with rfl | ⟨rfl, hne⟩
+  · cases rows with
+    | nil => rfl
+    | cons r rs => simpa using lines_joinWith (r :: rs) (by simp) h
+  · rw [← joinWith_snoc_nil '\n' rows hne]
+    unfold lines
+    rw [splitOnChar_joinWith '\n' (rows ++ [[]]) (by simp) (by
+      intro f hf
+      rcases List.mem_append.1 hf with hf | hf
+      · exact (h f hf).1
+      · simp at hf; subst hf; simp)]
+    exact linesOf_snoc_nil rows (fun l hl => (h l hl).2.1)
+
+/-- free text of a row: no column separator, no line break -/
+def NoSep (s : List Char) : Prop := '\t' ∉ s ∧ '\n' ∉ s ∧ '\r' ∉ s
+
+/-- a gene-term link as a gene file states it: gene id, symbol, term id; the term label (only in
+phenotype_to_genes.txt) and the further columns are free text -/
+structure GRow where
+  g : Nat
+  sym : List Char
+  h : Nat
+  label : List Char
+  tail : List Char
+
+def GRow.render (tr : Bool) (r : GRow) : List Char :=
+  if tr then renderP2G r.g r.sym r.h r.label r.tail else renderG2P r.g r.sym r.h r.tail
+
+structure GRow.Ok (r : GRow) : Prop where
+  g : r.g < 4294967296
+  h : r.h < 4294967296
+  sym : NoSep r.sym
+  label : NoSep r.label
+  tail : IsTail '\t' r.tail ∧ '\n' ∉ r.tail ∧ '\r' ∉ r.tail
+
+/-- the Builder calls a gene file stands for, in file order -/
+def annotateGenes : List GRow → Onto → Res Onto
+  | [], o => .ok o
+  | r :: rs, o => (o.annotate .gene r.g r.sym r.h).bind (annotateGenes rs)
+
+theorem decimal_noBreak (n : Nat) : '\n' ∉ TermId.decimal n ∧ '\r' ∉ TermId.decimal n :=
+  ⟨not_mem_decimal n '\n' nl_digitVal, not_mem_decimal n '\r' cr_digitVal⟩
+
+theorem GRow.lineOk (tr : Bool) (r : GRow) (h : r.Ok) : LineOk (r.render tr) := by
+  have a := decimal_noBreak r.g
+  have b := render_noBreak r.h
+  cases tr
+  · refine ⟨?_, ?_, ?_⟩
+    · simp [GRow.render, renderG2P, a.1, b.1, h.sym.2.1, h.tail.2.1]
+    · simp [GRow.render, renderG2P, a.2, b.2, h.sym.2.2, h.tail.2.2]
+    · simp [GRow.render, renderG2P]
+  · refine ⟨?_, ?_, ?_⟩
+    · simp [GRow.render, renderP2G, a.1, b.1, h.sym.2.1, h.label.2.1, h.tail.2.1]
+    · simp [GRow.render, renderP2G, a.2, b.2, h.sym.2.2, h.label.2.2, h.tail.2.2]
+    · simp [GRow.render, renderP2G]
+
+theorem geneRows_render (tr : Bool) (rows : List GRow) (h : ∀ r ∈ rows, r.Ok) (o : Onto) :
+    geneRows tr (rows.map (GRow.render tr)) o = annotateGenes rows o := by
+  induction rows generalizing o with
+  | nil => rfl
+  | cons r rs ih =>
+    have hr := h r (by simp)
+    have e : parseGeneRow tr (r.render tr) = .ok (r.g, r.sym, r.h) := by
+      cases tr
+      · simpa [parseGeneRow, GRow.render] using parseG2P_render r.g r.h r.sym r.tail hr.g hr.h hr.sym.1 hr.tail.1
+      · simpa [parseGeneRow, GRow.render] using
+          parseP2G_render r.g r.h r.sym r.label r.tail hr.g hr.h hr.sym.1 hr.label.1 hr.tail.1
+    simp only [List.map_cons, geneRows, annotateGenes, e, Res.bind]
+    cases o.annotate Kind.gene r.g r.sym r.h with
+    | ok o' => exact ih (fun x hx => h x (by simp [hx])) o'
+    | err e => rfl
+    | panic => rfl
+    | diverge => rfl
+
+/-- a whole gene file: header line, rows (any order — `rows` is any list), optional final line feed -/
+theorem geneFile_render (tr : Bool) (hdr : List Char) (rows : List GRow) (ending : List Char)
+    (hnl : '\n' ∉ hdr)
+    (hh : startsWith ['#'] hdr = true ∨ startsWith hdrNcbi hdr = true ∨ startsWith hdrHpo hdr = true)
+    (h : ∀ r ∈ rows, r.Ok) (hend : RowsEnd rows ending) :
+    removeHeader (hdr ++ '\n' :: (joinWith '\n' (rows.map (GRow.render tr)) ++ ending)) =
+      .ok (joinWith '\n' (rows.map (GRow.render tr)) ++ ending) ∧
+    ∀ o, geneRows tr (lines (joinWith '\n' (rows.map (GRow.render tr)) ++ ending)) o = annotateGenes rows o := by
+  constructor
+  · unfold removeHeader
+    rw [splitOnce_append '\n' hdr _ hnl]
+    rcases hh with h | h | h <;> simp [h]
+  · intro o
+    rw [lines_rows _ ending (by
+      intro l hl
+      obtain ⟨r, hr, rfl⟩ := List.mem_map.1 hl
+      exact r.lineOk tr (h r hr)) (by
+      rcases hend with h1 | ⟨h1, h2⟩
+      · exact Or.inl h1
+      · exact Or.inr ⟨h1, by simpa using h2⟩)]
+    exact geneRows_render tr rows h o
+
+/-! disease rows -/
+
+def dbText (orpha : Bool) : List Char := if orpha then pOrpha else pOmim
+def dbKind (orpha : Bool) : Kind := if orpha then .orpha else .omim
+
+/-- a line of phenotype.hpoa -/
+inductive DRow where
+  /-- an OMIM / ORPHA row with a qualifier other than `NOT` -/
+  | link (orpha : Bool) (d : Nat) (name q : List Char) (h : Nat) (tail : List Char)
+  /-- a `NOT` row: any id text, any term text -/
+  | excluded (orpha : Bool) (id name hpo tail : List Char)
+  /-- `#` comment, column header, row of another database, … -/
+  | ignored (line : List Char)
+
+def DRow.render : DRow → List Char
+  | .link orpha d name q h tail => renderDiseaseRow (dbText orpha) (TermId.decimal d) name q (TermId.render h) tail
+  | .excluded orpha id name hpo tail => renderDiseaseRow (dbText orpha) id name kNot hpo tail
+  | .ignored line => line
+
+def TailOk (tail : List Char) : Prop := IsTail '\t' tail ∧ '\n' ∉ tail ∧ '\r' ∉ tail
+
+def DRow.Ok : DRow → Prop
+  | .link _ d name q h tail =>
+    d < 4294967296 ∧ h < 4294967296 ∧ NoSep name ∧ NoSep q ∧ q ≠ kNot ∧ TailOk tail
+  | .excluded _ id name hpo tail => NoSep id ∧ NoSep name ∧ NoSep hpo ∧ EndsNonWs hpo ∧ TailOk tail
+  | .ignored line => startsWith pOmim line = false ∧ startsWith pOrpha line = false ∧ LineOk line
+
+/-- the Builder calls phenotype.hpoa stands for, in file order -/
+def annotateDiseases : List DRow → Onto → Res Onto
+  | [], o => .ok o
+  | .link orpha d name _ h _ :: rs, o => (o.annotate (dbKind orpha) d name h).bind (annotateDiseases rs)
+  | .excluded _ _ _ _ _ :: rs, o => annotateDiseases rs o
+  | .ignored _ :: rs, o => annotateDiseases rs o
+
+theorem parseDiseaseRow_db (orpha : Bool) (id name q hpo tail : List Char) (hend : EndsNonWs hpo)
+    (ht : IsTail '\t' tail) (hid : '\t' ∉ id) (hname : '\t' ∉ name) (hq : '\t' ∉ q) (hhpo : '\t' ∉ hpo) :
+    parseDiseaseRow (renderDiseaseRow (dbText orpha) id name q hpo tail) =
+      if q = kNot then .ok none
+      else match TermId.parse hpo with
+        | none => .err .parseInt
+        | some h => .ok (some (dbKind orpha, id, name, h)) := by
+  cases orpha
+  · have e := parseDiseaseComponents_render pOmim id name q hpo tail 'O' ['M', 'I', 'M'] rfl (by decide)
+      hend ht (by decide) (by decide) hid hname hq hhpo
+    have hs : startsWith pOmim (renderDiseaseRow pOmim id name q hpo tail) = true := startsWith_append _ _
+    simp only [dbText, dbKind, Bool.false_eq_true, if_false, parseDiseaseRow, hs, if_true, e]
+    by_cases hn : q = kNot
+    · simp [hn, Res.bind]
+    · simp only [hn, if_false]
+      cases TermId.parse hpo <;> simp [Res.bind]
+  · have e := parseDiseaseComponents_render pOrpha id name q hpo tail 'O' ['R', 'P', 'H', 'A'] rfl (by decide)
+      hend ht (by decide) (by decide) hid hname hq hhpo
+    have hs : startsWith pOrpha (renderDiseaseRow pOrpha id name q hpo tail) = true := startsWith_append _ _
+    have hn' : startsWith pOmim (renderDiseaseRow pOrpha id name q hpo tail) = false := by
+      simp [renderDiseaseRow, pOrpha, pOmim, startsWith]
+    simp only [dbText, dbKind, if_true, parseDiseaseRow, hs, hn', Bool.false_eq_true, if_false, e]
+    by_cases hn : q = kNot
+    · simp [hn, Res.bind]
+    · simp only [hn, if_false]
+      cases TermId.parse hpo <;> simp [Res.bind]
+
+theorem diseaseRows_cons (row : DRow) (h : row.Ok) (ls : List (List Char)) (o : Onto) :
+    diseaseRows (row.render :: ls) o =
+      match row with
+      | .link orpha d name _ hh _ => (o.annotate (dbKind orpha) d name hh).bind (diseaseRows ls)
+      | _ => diseaseRows ls o := by
+  cases row with
+  | link orpha d name q hh tail =>
+    obtain ⟨h1, h2, h3, h4, h5, h6⟩ := h
+    have e := parseDiseaseRow_db orpha (TermId.decimal d) name q (TermId.render hh) tail (EndsNonWs_render hh)
+      h6.1 (not_mem_decimal d '\t' tab_digitVal) h3.1 h4.1
+      (not_mem_render hh '\t' tab_digitVal (by decide) (by decide) (by decide))
+    simp only [DRow.render, diseaseRows, e, h5, if_false, parse_render hh h2, Res.bind, parseU32_decimal d h1]
+  | excluded orpha id name hpo tail =>
+    obtain ⟨h1, h2, h3, h4, h5⟩ := h
+    have e := parseDiseaseRow_db orpha id name kNot hpo tail h4 h5.1 h1.1 h2.1 (by decide) h3.1
+    simp only [DRow.render, diseaseRows, e, if_true, Res.bind]
+  | ignored line =>
+    simp [DRow.render, diseaseRows, parseDiseaseRow, h.1, h.2.1, Res.bind]
+
+theorem diseaseRows_render (rows : List DRow) (h : ∀ r ∈ rows, r.Ok) (o : Onto) :
+    diseaseRows (rows.map DRow.render) o = annotateDiseases rows o := by
+  induction rows generalizing o with
+  | nil => rfl
+  | cons r rs ih =>
+    have hrs := fun o' => ih (fun x hx => h x (by simp [hx])) o'
+    rw [List.map_cons, diseaseRows_cons r (h r (by simp))]
+    cases r with
+    | link orpha d name q hh tail =>
+      simp only [annotateDiseases]
+      cases o.annotate (dbKind orpha) d name hh with
+      | ok o' => exact hrs o'
+      | err e => rfl
+      | panic => rfl
+      | diverge => rfl
+    | excluded orpha id name hpo tail => exact hrs o
+    | ignored line => exact hrs o
+
+theorem DRow.lineOk (r : DRow) (h : r.Ok) : LineOk r.render := by
+  cases r with
+  | link orpha d name q hh tail =>
+    obtain ⟨_, _, h3, h4, _, h6⟩ := h
+    have a := decimal_noBreak d
+    have b := render_noBreak hh
+    cases orpha <;> refine ⟨?_, ?_, ?_⟩ <;>
+      simp [DRow.render, renderDiseaseRow, dbText, pOmim, pOrpha, a.1, a.2, b.1, b.2, h3.2.1, h3.2.2, h4.2.1,
+        h4.2.2, h6.2.1, h6.2.2]
+  | excluded orpha id name hpo tail =>
+    obtain ⟨h1, h2, h3, _, h5⟩ := h
+    cases orpha <;> refine ⟨?_, ?_, ?_⟩ <;>
+      simp [DRow.render, renderDiseaseRow, dbText, pOmim, pOrpha, kNot, h1.2.1, h1.2.2, h2.2.1, h2.2.2, h3.2.1,
+        h3.2.2, h5.2.1, h5.2.2]
+  | ignored line => exact h.2.2
+
+/-- a whole phenotype.hpoa: comment block, column header and rows are all `DRow`s, in any order -/
+theorem hpoaFile_render (rows : List DRow) (ending : List Char) (h : ∀ r ∈ rows, r.Ok)
+    (hend : RowsEnd rows ending) (o : Onto) :
+    diseaseRows (lines (joinWith '\n' (rows.map DRow.render) ++ ending)) o = annotateDiseases rows o := by
+  rw [lines_rows _ ending (by
+    intro l hl
+    obtain ⟨r, hr, rfl⟩ := List.mem_map.1 hl
+    exact r.lineOk (h r hr)) (by
+    rcases hend with h1 | ⟨h1, h2⟩
+    · exact Or.inl h1
+    · exact Or.inr ⟨h1, by simpa using h2⟩)]
+  exact diseaseRows_render rows h o
+
+/-! ### the whole load -/
+
+/-- The Builder-model program that three rendered files stand for: `add_term` per stanza,
+`add_parent_unchecked` per `is_a`, `connect_all_terms`, `annotate_gene` per gene row,
+`annotate_omim_disease` / `annotate_orpha_disease` per disease row that is not excluded,
+`calculate_information_content`, `build_with_defaults` — all in file order. -/
+def buildFromFacts (terms : List (Term × List Nat)) (v : Nat × Nat × Nat) (grows : List GRow)
+    (drows : List DRow) : Res Onto :=
+  match oboBuild { terms := terms, version := v } with
+  | none => .panic
+  | some o1 =>
+    o1.connectAll.bind fun o2 =>
+      (annotateGenes grows o2).bind fun o3 =>
+        (annotateDiseases drows o3).bind fun o4 =>
+          o4.calcIc.bind fun o5 => o5.buildWithDefaults
+
+theorem loadJax_render (tr : Bool)
+    (pre post : List (List Char)) (y1 y2 y3 y4 m1 m2 d1 d2 : Nat)
+    (hy1 : y1 < 10) (hy2 : y2 < 10) (hy3 : y3 < 10) (hy4 : y4 < 10) (hm1 : m1 < 10) (hm2 : m2 < 10)
+    (hd1 : d1 < 10) (hd2 : d2 < 10)
+    (hpre : ∀ l ∈ pre, stripPrefix versionPrefix l = none) (hok : ∀ l ∈ pre ++ post, LineOk l)
+    (items : List Item) (hitems : ∀ i ∈ items, i.Ok) (oboEnd : List Char)
+    (hoboEnd : oboEnd = [] ∨ oboEnd = blankLine)
+    (hdr : List Char) (grows : List GRow) (geneEnd : List Char) (hnl : '\n' ∉ hdr)
+    (hh : startsWith ['#'] hdr = true ∨ startsWith hdrNcbi hdr = true ∨ startsWith hdrHpo hdr = true)
+    (hg : ∀ r ∈ grows, r.Ok) (hgeneEnd : RowsEnd grows geneEnd)
+    (drows : List DRow) (hpoaEnd : List Char) (hd : ∀ r ∈ drows, r.Ok) (hhpoaEnd : RowsEnd drows hpoaEnd) :
+    loadJax tr
+      (joinStr blankLine
+        (joinWith '\n' (headerLines pre post y1 y2 y3 y4 m1 m2 d1 d2) :: items.map Item.render) ++ oboEnd)
+      (hdr ++ '\n' :: (joinWith '\n' (grows.map (GRow.render tr)) ++ geneEnd))
+      (joinWith '\n' (drows.map DRow.render) ++ hpoaEnd) =
+    buildFromFacts (itemsTerms items)
+      (1000 * y1 + 100 * y2 + 10 * y3 + y4, 10 * m1 + m2, 10 * d1 + d2) grows drows := by
+  unfold loadJax buildFromFacts
+  rw [readObo_file pre post y1 y2 y3 y4 m1 m2 d1 d2 hy1 hy2 hy3 hy4 hm1 hm2 hd1 hd2 hpre hok items hitems
+    oboEnd hoboEnd]
+  obtain ⟨g1, g2⟩ := geneFile_render tr hdr grows geneEnd hnl hh hg hgeneEnd
+  simp only [Res.bind, g1]
+  cases oboBuild _ with
+  | none => rfl
+  | some o1 =>
+    simp only []
+    cases o1.connectAll with
+    | ok o2 =>
+      simp only [g2 o2]
+      cases annotateGenes grows o2 with
+      | ok o3 => simp only [hpoaFile_render drows hpoaEnd hd hhpoaEnd o3]
+      | err e => rfl
+      | panic => rfl
+      | diverge => rfl
+    | err e => rfl
+    | panic => rfl
+    | diverge => rfl
+
 end Text
 end Hpo
